@@ -54,6 +54,27 @@ Definition enc_wval (v : wval) : bytes :=
 Definition enc_field (f : field) : bytes := varint_enc (fst f * 8 + wtype (snd f)) ++ enc_wval (snd f).
 Definition enc_fields (fs : list field) : bytes := flat_map enc_field fs.
 
+(* one field: tag, then the value according to the wire type *)
+Definition dec_one (s : bytes) : result pb_err (field * bytes) :=
+  match varint_dec s with
+  | None => Err PbErr
+  | Some (tag, r) =>
+    let num := tag / 8 in
+    if (num =? 0) || (max_fnum <? num) then Err PbErr
+    else
+      match tag mod 8 with
+      | 0 => match varint_dec r with Some (n, rest) => Ok ((num, WVarint n), rest) | None => Err PbErr end
+      | 1 => if blen r <? 8 then Err PbErr else Ok ((num, WFixed64 (take 8 r)), drop 8 r)
+      | 2 => match varint_dec r with
+             | Some (len, rest) => if blen rest <? len then Err PbErr else Ok ((num, WBytes (take len rest)), drop len rest)
+             | None => Err PbErr
+             end
+      | 5 => if blen r <? 4 then Err PbErr else Ok ((num, WFixed32 (take 4 r)), drop 4 r)
+      | 3 | 4 => Err PbUnsupported
+      | _ => Err PbErr
+      end
+  end.
+
 Fixpoint dec_fields_fuel (fuel : nat) (s : bytes) : result pb_err (list field) :=
   match fuel with
   | O => match s with [] => Ok [] | _ => Err PbErr end
@@ -61,28 +82,14 @@ Fixpoint dec_fields_fuel (fuel : nat) (s : bytes) : result pb_err (list field) :
     match s with
     | [] => Ok []
     | _ =>
-      match varint_dec s with
-      | None => Err PbErr
-      | Some (tag, r) =>
-        let num := tag / 8 in
-        if (num =? 0) || (max_fnum <? num) then Err PbErr
-        else
-          let cont (v : wval) (rest : bytes) :=
-            match dec_fields_fuel f rest with
-            | Ok fs => Ok ((num, v) :: fs)
-            | e => e
-            end in
-          match tag mod 8 with
-          | 0 => match varint_dec r with Some (n, rest) => cont (WVarint n) rest | None => Err PbErr end
-          | 1 => if blen r <? 8 then Err PbErr else cont (WFixed64 (take 8 r)) (drop 8 r)
-          | 2 => match varint_dec r with
-                 | Some (len, rest) => if blen rest <? len then Err PbErr else cont (WBytes (take len rest)) (drop len rest)
-                 | None => Err PbErr
-                 end
-          | 5 => if blen r <? 4 then Err PbErr else cont (WFixed32 (take 4 r)) (drop 4 r)
-          | 3 | 4 => Err PbUnsupported
-          | _ => Err PbErr
-          end
+      match dec_one s with
+      | Ok (fld, rest) =>
+        match dec_fields_fuel f rest with
+        | Ok fs => Ok (fld :: fs)
+        | e => e
+        end
+      | Err e => Err e
+      | Panic => Panic
       end
     end
   end.
@@ -107,9 +114,10 @@ Definition generic_empty : generic_tp := {| g_rand := None; g_unk := [] |}.
 Definition marshal_generic (m : generic_tp) : bytes :=
   enc_fields (opt_field 13 (fun b => WVarint (varint_of_bool b)) (g_rand m) ++ g_unk m).
 Definition step_generic (m : generic_tp) (f : field) : generic_tp :=
-  match f with
-  | (13, WVarint n) => {| g_rand := Some (bool_of_varint n); g_unk := g_unk m |}
-  | _ => {| g_rand := g_rand m; g_unk := g_unk m ++ [f] |}
+  let other := {| g_rand := g_rand m; g_unk := g_unk m ++ [f] |} in
+  match snd f with
+  | WVarint n => if fst f =? 13 then {| g_rand := Some (bool_of_varint n); g_unk := g_unk m |} else other
+  | _ => other
   end.
 Definition unmarshal_generic (s : bytes) : result pb_err generic_tp :=
   match dec_fields s with Ok fs => Ok (fold_left step_generic fs generic_empty) | Err e => Err e | Panic => Panic end.
@@ -122,12 +130,16 @@ Definition marshal_prefix (m : prefix_tp) : bytes :=
               opt_field 3 (fun z => WVarint (varint_of_int32 z)) (p_flush m) ++
               opt_field 13 (fun b => WVarint (varint_of_bool b)) (p_rand m) ++ p_unk m).
 Definition step_prefix (m : prefix_tp) (f : field) : prefix_tp :=
-  match f with
-  | (1, WVarint n) => {| p_id := Some (int32_of_varint n); p_prefix := p_prefix m; p_flush := p_flush m; p_rand := p_rand m; p_unk := p_unk m |}
-  | (2, WBytes b) => {| p_id := p_id m; p_prefix := Some b; p_flush := p_flush m; p_rand := p_rand m; p_unk := p_unk m |}
-  | (3, WVarint n) => {| p_id := p_id m; p_prefix := p_prefix m; p_flush := Some (int32_of_varint n); p_rand := p_rand m; p_unk := p_unk m |}
-  | (13, WVarint n) => {| p_id := p_id m; p_prefix := p_prefix m; p_flush := p_flush m; p_rand := Some (bool_of_varint n); p_unk := p_unk m |}
-  | _ => {| p_id := p_id m; p_prefix := p_prefix m; p_flush := p_flush m; p_rand := p_rand m; p_unk := p_unk m ++ [f] |}
+  let other := {| p_id := p_id m; p_prefix := p_prefix m; p_flush := p_flush m; p_rand := p_rand m; p_unk := p_unk m ++ [f] |} in
+  match snd f with
+  | WVarint n =>
+    if fst f =? 1 then {| p_id := Some (int32_of_varint n); p_prefix := p_prefix m; p_flush := p_flush m; p_rand := p_rand m; p_unk := p_unk m |}
+    else if fst f =? 3 then {| p_id := p_id m; p_prefix := p_prefix m; p_flush := Some (int32_of_varint n); p_rand := p_rand m; p_unk := p_unk m |}
+    else if fst f =? 13 then {| p_id := p_id m; p_prefix := p_prefix m; p_flush := p_flush m; p_rand := Some (bool_of_varint n); p_unk := p_unk m |}
+    else other
+  | WBytes b =>
+    if fst f =? 2 then {| p_id := p_id m; p_prefix := Some b; p_flush := p_flush m; p_rand := p_rand m; p_unk := p_unk m |} else other
+  | _ => other
   end.
 Definition unmarshal_prefix (s : bytes) : result pb_err prefix_tp :=
   match dec_fields s with Ok fs => Ok (fold_left step_prefix fs prefix_empty) | Err e => Err e | Panic => Panic end.
@@ -138,10 +150,11 @@ Definition addr_empty : addr_pb := {| a_ip := None; a_port := None; a_unk := [] 
 Definition marshal_addr (m : addr_pb) : bytes :=
   enc_fields (opt_field 1 WBytes (a_ip m) ++ opt_field 2 WVarint (a_port m) ++ a_unk m).
 Definition step_addr (m : addr_pb) (f : field) : addr_pb :=
-  match f with
-  | (1, WBytes b) => {| a_ip := Some b; a_port := a_port m; a_unk := a_unk m |}
-  | (2, WVarint n) => {| a_ip := a_ip m; a_port := Some (uint32_of_varint n); a_unk := a_unk m |}
-  | _ => {| a_ip := a_ip m; a_port := a_port m; a_unk := a_unk m ++ [f] |}
+  let other := {| a_ip := a_ip m; a_port := a_port m; a_unk := a_unk m ++ [f] |} in
+  match snd f with
+  | WBytes b => if fst f =? 1 then {| a_ip := Some b; a_port := a_port m; a_unk := a_unk m |} else other
+  | WVarint n => if fst f =? 2 then {| a_ip := a_ip m; a_port := Some (uint32_of_varint n); a_unk := a_unk m |} else other
+  | _ => other
   end.
 (* an embedded message merges into the value already present *)
 Definition merge_addr (cur : option addr_pb) (s : bytes) : result pb_err addr_pb :=
@@ -161,16 +174,23 @@ Definition marshal_dtls (m : dtls_tp) : bytes :=
 Definition step_dtls (r : result pb_err dtls_tp) (f : field) : result pb_err dtls_tp :=
   match r with
   | Ok m =>
-    match f with
-    | (1, WBytes b) => match merge_addr (d_src4 m) b with
-                       | Ok a => Ok {| d_src4 := Some a; d_src6 := d_src6 m; d_rand := d_rand m; d_unordered := d_unordered m; d_unk := d_unk m |}
-                       | Err e => Err e | Panic => Panic end
-    | (2, WBytes b) => match merge_addr (d_src6 m) b with
-                       | Ok a => Ok {| d_src4 := d_src4 m; d_src6 := Some a; d_rand := d_rand m; d_unordered := d_unordered m; d_unk := d_unk m |}
-                       | Err e => Err e | Panic => Panic end
-    | (3, WVarint n) => Ok {| d_src4 := d_src4 m; d_src6 := d_src6 m; d_rand := Some (bool_of_varint n); d_unordered := d_unordered m; d_unk := d_unk m |}
-    | (4, WVarint n) => Ok {| d_src4 := d_src4 m; d_src6 := d_src6 m; d_rand := d_rand m; d_unordered := Some (bool_of_varint n); d_unk := d_unk m |}
-    | _ => Ok {| d_src4 := d_src4 m; d_src6 := d_src6 m; d_rand := d_rand m; d_unordered := d_unordered m; d_unk := d_unk m ++ [f] |}
+    let other := Ok {| d_src4 := d_src4 m; d_src6 := d_src6 m; d_rand := d_rand m; d_unordered := d_unordered m; d_unk := d_unk m ++ [f] |} in
+    match snd f with
+    | WBytes b =>
+      if fst f =? 1 then
+        match merge_addr (d_src4 m) b with
+        | Ok a => Ok {| d_src4 := Some a; d_src6 := d_src6 m; d_rand := d_rand m; d_unordered := d_unordered m; d_unk := d_unk m |}
+        | Err e => Err e | Panic => Panic end
+      else if fst f =? 2 then
+        match merge_addr (d_src6 m) b with
+        | Ok a => Ok {| d_src4 := d_src4 m; d_src6 := Some a; d_rand := d_rand m; d_unordered := d_unordered m; d_unk := d_unk m |}
+        | Err e => Err e | Panic => Panic end
+      else other
+    | WVarint n =>
+      if fst f =? 3 then Ok {| d_src4 := d_src4 m; d_src6 := d_src6 m; d_rand := Some (bool_of_varint n); d_unordered := d_unordered m; d_unk := d_unk m |}
+      else if fst f =? 4 then Ok {| d_src4 := d_src4 m; d_src6 := d_src6 m; d_rand := d_rand m; d_unordered := Some (bool_of_varint n); d_unk := d_unk m |}
+      else other
+    | _ => other
     end
   | e => e
   end.
@@ -187,10 +207,13 @@ Definition ascii (b : bytes) : bool := forallb (fun c => c <? 128) b.
 Definition step_any (r : result pb_err any_pb) (f : field) : result pb_err any_pb :=
   match r with
   | Ok m =>
-    match f with
-    | (1, WBytes b) => if ascii b then Ok {| y_url := b; y_value := y_value m; y_unk := y_unk m |} else Err PbUnsupported
-    | (2, WBytes b) => Ok {| y_url := y_url m; y_value := b; y_unk := y_unk m |}
-    | _ => Ok {| y_url := y_url m; y_value := y_value m; y_unk := y_unk m ++ [f] |}
+    let other := Ok {| y_url := y_url m; y_value := y_value m; y_unk := y_unk m ++ [f] |} in
+    match snd f with
+    | WBytes b =>
+      if fst f =? 1 then (if ascii b then Ok {| y_url := b; y_value := y_value m; y_unk := y_unk m |} else Err PbUnsupported)
+      else if fst f =? 2 then Ok {| y_url := y_url m; y_value := b; y_unk := y_unk m |}
+      else other
+    | _ => other
     end
   | e => e
   end.
@@ -209,11 +232,44 @@ Definition field_wf (f : field) : Prop := 1 <= fst f <= max_fnum /\ wval_wf (snd
 Definition int32_ok (z : Z) : Prop := (-2147483648 <= z < 2147483648)%Z.
 Definition opt_ok {A} (P : A -> Prop) (o : option A) : Prop := match o with Some a => P a | None => True end.
 
-(* a field that the typed layer of a message keeps as unknown *)
-Definition unknown_for_generic (f : field) : Prop := match f with (13, WVarint _) => False | _ => True end.
+(* a field that the typed layer of a message keeps as unknown: its (number, wire type) is not a known field's *)
+Definition is_fw (f : field) (num wt : N) : bool := (fst f =? num) && (wtype (snd f) =? wt).
+Definition unknown_for_generic (f : field) : Prop := is_fw f 13 0 = false.
 Definition unknown_for_prefix (f : field) : Prop :=
-  match f with (1, WVarint _) | (2, WBytes _) | (3, WVarint _) | (13, WVarint _) => False | _ => True end.
-Definition unknown_for_addr (f : field) : Prop := match f with (1, WBytes _) | (2, WVarint _) => False | _ => True end.
+  is_fw f 1 0 = false /\ is_fw f 2 2 = false /\ is_fw f 3 0 = false /\ is_fw f 13 0 = false.
+Definition unknown_for_addr (f : field) : Prop := is_fw f 1 2 = false /\ is_fw f 2 0 = false.
 Definition unknown_for_dtls (f : field) : Prop :=
-  match f with (1, WBytes _) | (2, WBytes _) | (3, WVarint _) | (4, WVarint _) => False | _ => True end.
-Definition unknown_for_any (f : field) : Prop := match f with (1, WBytes _) | (2, WBytes _) => False | _ => True end.
+  is_fw f 1 2 = false /\ is_fw f 2 2 = false /\ is_fw f 3 0 = false /\ is_fw f 4 0 = false.
+Definition unknown_for_any (f : field) : Prop := is_fw f 1 2 = false /\ is_fw f 2 2 = false.
+
+(* ---- the three transport-parameter messages as one type, and the station's path for the Any bytes ---- *)
+From CJ Require Import C15.ModelAny.
+Inductive pbmsg := MGeneric (m : generic_tp) | MPrefix (m : prefix_tp) | MDtls (m : dtls_tp).
+Definition pb_type_of (m : pbmsg) : N := match m with MGeneric _ => 0 | MPrefix _ => 1 | MDtls _ => 2 end.
+Definition pb_marshal (m : pbmsg) : bytes :=
+  match m with MGeneric x => marshal_generic x | MPrefix x => marshal_prefix x | MDtls x => marshal_dtls x end.
+Definition res_opt {A B} (f : A -> B) (r : result pb_err A) : option B := match r with Ok a => Some (f a) | _ => None end.
+Definition pb_unmarshal (t : N) (s : bytes) : option pbmsg :=
+  match t with
+  | 0 => res_opt MGeneric (unmarshal_generic s)
+  | 1 => res_opt MPrefix (unmarshal_prefix s)
+  | _ => res_opt MDtls (unmarshal_dtls s)
+  end.
+Definition pb_url_of (t : N) : string :=
+  match t with
+  | 0 => "type.googleapis.com/proto.GenericTransportParams"
+  | 1 => "type.googleapis.com/proto.PrefixTransportParams"
+  | _ => "type.googleapis.com/proto.DTLSTransportParams"
+  end%string.
+Definition string_of_bytes (b : bytes) : string := string_of_list_ascii (map ascii_of_N b).
+
+(* client: the parameters packed URL-less into an Any, as bytes (decoy-registrar/utils.go sets TypeUrl = "") *)
+Definition client_pack_nourl (m : pbmsg) : bytes :=
+  marshal_any {| y_url := []; y_value := pb_marshal m; y_unk := [] |}.
+(* station: proto.Unmarshal of the Any, then UnmarshalAnypbTo into a message of type dst *)
+Definition station_unpack (s : bytes) (dst : N) : result any_err (option pbmsg) :=
+  match unmarshal_any s with
+  | Ok a => unmarshal_anypb_to N pbmsg pb_url_of pb_unmarshal
+              (Some {| any_url := string_of_bytes (y_url a); any_value := y_value a |}) dst
+  | _ => Err EUnmarshal
+  end.
